@@ -176,7 +176,16 @@ def judge_config(ctx, cfg, LOG):
             b = Backend(api=bk_api, load=load, use_environ=use_environ)
         else:
             os.environ['MIDO_BACKEND'] = 'vmonbk_nonexistent/ENVAPI'     # must lose against the explicit name
-            b = Backend(mod + suffix, api=bk_api, load=load, use_environ=use_environ)
+            # the constructor's arguments by keyword, all by position, or by position as far as they differ from the defaults
+            style = hash((entry, given, env_in, env_out, env_io, api_mode)) % 3 if isinstance(entry, str) else 0
+            if style == 0:
+                b = Backend(mod + suffix, api=bk_api, load=load, use_environ=use_environ)
+            elif style == 1:
+                b = Backend(mod + suffix, bk_api, load, use_environ)
+            elif use_environ:
+                b = Backend(mod + suffix, bk_api, load)
+            else:
+                b = Backend(mod + suffix, bk_api, load, use_environ=False)
         ctx.check('backend name and api split', b.name == mod and b.api == (('SUFX' if suffix else bk_api)),
                   'name-api-split', case, [b.name, b.api])
         imported = [e for e in LOG if e[0] == 'import']
